@@ -231,6 +231,14 @@ func cmdCheck(args []string) int {
 		}
 		jobs = sel
 	}
+	budget := 40 * time.Minute
+	if tier == "thorough" {
+		budget = 4 * time.Hour
+	}
+	if v, _ := strconv.Atoi(os.Getenv("GOSYM_CHECK_WALL_S")); v > 0 {
+		budget = time.Duration(v) * time.Second
+	}
+	deadline := time.Now().Add(budget)
 	results := make([]*JobResult, len(jobs))
 	par, per := 1, nw
 	if len(jobs) >= 4 && nw >= 8 {
@@ -257,6 +265,14 @@ func cmdCheck(args []string) int {
 		sem <- struct{}{}
 		go func(i int, j *JobCfg) {
 			defer wgj.Done()
+			// the check as a whole has a wall budget too: jobs that would start after it are cut short at once
+			left := int(time.Until(deadline).Seconds())
+			if left < 5 {
+				left = 5
+			}
+			if j.MaxWallS > left {
+				j.MaxWallS = left
+			}
 			r := runJob(prog, j, per)
 			pmu.Lock()
 			fmt.Println("  " + r.summary())
